@@ -112,6 +112,60 @@ def check_dirty_closure(chk, prog):
     note = g.calls_to(SUM + "::note_dirty_id")
     chk.judge(bool(loops) and bool(calls) and bool(note), R, CV + "::expand_dirty_id_closure", "iterates extend_containers_containing to a fixpoint, noting each new id",
               "expand_dirty_id_closure no longer iterates over containing containers", g.loc)
+    # coverage inside the closure computation: every container environment is asked, and every id that is new to `seen` is both
+    # recorded as dirty and put on the next frontier
+    ok_env = ok_new = False
+    for c in g.calls:
+        if not (c.p.endswith("Iterator>::next") or c.p.endswith("Iterator::next")) or c.target is None or g.term(c.target)[0] != "switch":
+            continue
+        some = [tb for v, tb in g.term(c.target)[2] if v == "1"]
+        if not some:
+            continue
+        body = {some[0]} | g.reach_avoiding([some[0]], {c.bb})
+        ecalls = {x.bb for x in calls if x.bb in body}
+        if ecalls and not any(x.bb in body for x in note):
+            at = g.origins(c.args[0])
+            plain = bool(at) and all(a[0] == "call" and a[1].endswith("::iter") for a in at)
+            seen_, st_ = set(), [some[0]]
+            esc = False
+            while st_:
+                x = st_.pop()
+                if x in seen_ or x in ecalls:
+                    continue
+                seen_.add(x)
+                if x == c.bb:
+                    esc = True
+                    break
+                st_.extend(g.succ[x])
+            ok_env = plain and not esc
+        nb = {x.bb for x in note if x.bb in body}
+        if nb:
+            fins = {x.bb for x in g.calls if x.bb in body and x.p.endswith("IndexSet::insert") and x.bb not in
+                    {y.bb for y in g.calls if y.p.endswith("IndexSet::insert") and any(z.bb == y.bb for z in g.calls if False)}}
+            # the `seen.insert(value)` test and the frontier insertion are both IndexSet::insert; the one whose result is branched on is the test
+            tests = [x for x in g.calls if x.bb in body and x.p.endswith("IndexSet::insert") and g.term(x.target)[0] == "switch"]
+            adds = {x.bb for x in g.calls if x.bb in body and x.p.endswith("IndexSet::insert")} - {x.bb for x in tests}
+            if tests and adds:
+                t = tests[0]
+                newarm = [tb for v, tb in g.term(t.target)[2] if v != "0"] or [g.term(t.target)[3]]
+                zero = [tb for v, tb in g.term(t.target)[2] if v == "0"]
+                true_succ = g.term(t.target)[3] if zero else newarm[0]
+                def escapes(start, need):
+                    seen_, st_ = set(), [start]
+                    while st_:
+                        x = st_.pop()
+                        if x in seen_ or x in need:
+                            continue
+                        seen_.add(x)
+                        if x == c.bb:
+                            return True
+                        st_.extend(g.succ[x])
+                    return False
+                ok_new = not escapes(true_succ, nb) and not escapes(true_succ, adds)
+    chk.judge(ok_env, R, CV + "::expand_dirty_id_closure:every-env", "every container environment contributes the containers that mention a frontier id",
+              "the dirty-id closure does not ask every container environment (an adapter or a skipped iteration): parents of another container type are not refreshed", g.loc)
+    chk.judge(ok_new, R, CV + "::expand_dirty_id_closure:new-id", "an id new to `seen` is recorded as dirty and joins the next frontier",
+              "an id found by the closure for the first time is not both recorded as dirty and put on the next frontier: the closure stops one level short on some path", g.loc)
 
 
 def _variant_regions(prog):
@@ -352,8 +406,8 @@ def _indexing_helper_param(prog, g):
             pv = [a for a in g.origins(i.args[1]) if a[0] == "param" and not a[2]]
             if not pv:
                 continue
-            r = {some[0]} | g.reach_avoiding([some[0]], {i.bb})
-            if c.bb in r:
+            from ..util import escapes
+            if escapes(g, some[0], {i.bb}, c.bb):
                 continue
             # the loop header is on every path to the return
             if any(g.term(b)[0] == "ret" for b in g.reach_avoiding_from_entry({c.bb})):
